@@ -6,9 +6,10 @@
      foldc        case folding of one code point, as a string (str.casefold maps some code points to several);
                   the theorems need only that it erases nothing and keeps '/' and '#' apart from everything
                   else; CPython's table (Gen/FoldTable.v, used by the correspondence run) satisfies this
-     fx           which repairs of hed_schema.py the model follows: [repaired] = the code as it is now
-                  (fix_index: indexes refer to the text as written; fix_hash: the walk never steps onto a
-                  '#' placeholder); the unrepaired behaviour is kept for the record at the end
+     fx           which repairs of hed_schema.py the model follows: [repaired] = the code as it is in /repo
+                  (fix_index = fix commit de8c862: indexes refer to the text as written; fix_hash = fix
+                  commit 03a83bd: the walk never steps onto a '#' placeholder).  The behaviour BEFORE these
+                  two commits is kept only as the record of the repaired defects, at the end of the section
      WFschema     boolean well-formedness: names non-empty, no trailing '/', no ':'; every slash-prefix of a
                   name is a name; '#' only as the last component; folded short names pairwise different
      build_table  HedSchemaTagSection after loading; find_tag_entry / hedtag_init: HedSchema.find_tag_entry
@@ -60,7 +61,7 @@ Section C03.
       = mkHedTag (sns ++ p) sns (Some e) (if is_value n then s_slash_hash else []).
   Proof. exact (hedtag_suffix foldc fold_slash fold_hash). Qed.
 
-  (* remainder_verbatim (the code as it is now, for EVERY admissible folding -- also those that change the
+  (* remainder_verbatim (the code as it is in /repo -- with de8c862 --, for EVERY admissible folding -- also those that change the
      length of the text): after a spelling p of node n, text r that does not continue to a deeper registered
      form (no_longer_form) is carried over verbatim as "/r", on the '#' child of n when n has one (then any r
      is accepted), otherwise on n provided no term of r is itself a tag (else the code reports
@@ -80,7 +81,7 @@ Section C03.
             e_long v = e_long e /\ e_short v = e_short e).
   Proof. exact (remainder_verbatim foldc fold_slash fold_hash). Qed.
 
-  (* long_short_inverse, the FULL statement, for the code as it is now: for EVERY text t (identified or not,
+  (* long_short_inverse, the FULL statement, for the code as it is in /repo (de8c862 + 03a83bd): for EVERY text t (identified or not,
      any namespace, any admissible folding): long(short t) = long t, short(long t) = short t, both idempotent,
      and all three texts are identified with the same entry and the same value/extension. *)
   Theorem C03_long_short_inverse : forall S, WFschema foldc S = true -> forall T, build_table foldc S = Ok T ->
@@ -129,8 +130,23 @@ Section C03.
   (* ---- histories: one schema object, one HedTag object (Model/Histories.v) ----
      A schema object answers lookups and gets further vocabularies merged into the SAME tag section (the
      partnered library is built that way on a copy of the standard schema; load_schema(..., schema=existing)).
-     After ANY history of lookups and merges every answer is the one of a table built from scratch out of the
-     names held at that moment: nothing that was looked up before matters. *)
+
+     What is PROVED here and what is not.  The code in /repo keeps no memo of lookups and HedTag computes its
+     forms from (namespace, entry, value) on every read, so the faithful model has no such state either: a
+     lookup step leaves the table as it is and TRead/TCopy are identity steps BY CONSTRUCTION of the model.
+     Hence "what was looked up / read before does not matter" (the lookup half of C03_schema_history and all
+     of C03_tag_reads_invisible) is immediate from the model's shape -- these two theorems only record that
+     shape; that the IMPLEMENTATION has no stale state of this kind is TESTED, not proved (harness/c03_hist.py:
+     histories on one object against fresh objects, the model and the T4 specification; two seeded memo
+     faults are caught that way).  The content with a proof is the merge half: registering further names into
+     a table that was built earlier gives exactly the table built from scratch out of all names
+     (C03_merge_incremental), so a merged / derived schema answers like a schema loaded in one go. *)
+  Theorem C03_merge_incremental : forall S more,
+    build_table foldc (S ++ more) = (let* T := build_table foldc S in add_all foldc T more).
+  Proof. exact (build_table_app foldc). Qed.
+
+  (* corollary: after ANY history of lookups and merges every answer is the one of a table built from scratch
+     out of the names held at that moment (lookups leave the model's table untouched by construction) *)
   Theorem C03_schema_history : forall fx ops S,
     srun foldc fx (build_table foldc S) ops = sref foldc fx S ops.
   Proof. exact (schema_history foldc). Qed.
@@ -152,7 +168,7 @@ Section C03.
     short_tag h = sns ++ short_tag h0 /\ long_tag h = sns ++ long_tag h0.
   Proof. exact (namespace_transparent foldc). Qed.
 
-  (* reading the forms of a HedTag, or copying it, never changes what later operations and reads give *)
+  (* by construction of the model (see above): read and copy steps can be dropped from a HedTag history *)
   Theorem C03_tag_reads_invisible : forall T sns ops h,
     trun foldc T sns h ops = trun foldc T sns h (filter mutating ops).
   Proof. exact (tag_reads_invisible foldc). Qed.
@@ -175,9 +191,10 @@ Section C03.
         = mkHedTag (long_tag h) (get_schema_namespace t0) (Some e') (ch_slash :: r).
   Proof. exact (mutated_tag_reparses foldc fold_slash fold_hash). Qed.
 
-  (* ---- record of the repaired defects: what held of the code BEFORE the two fix: commits ---- *)
+  (* ---- record of the repaired defects: behaviour BEFORE fix commits de8c862 (C03-F1) and 03a83bd (C03-F2).
+     Nothing below is a statement about the code that is in /repo now. ---- *)
 
-  (* before the '#' repair (C03-F2) the round trip held only for texts without "/#/" *)
+  (* behaviour before fix commit 03a83bd (C03-F2): the round trip held only for texts without "/#/" *)
   Theorem C03_long_short_inverse_before_hash_fix :
     forall S, WFschema foldc S = true -> forall T, build_table foldc S = Ok T ->
     forall sns t, ~ has_hash_mid t ->
@@ -195,7 +212,7 @@ Section C03.
                (fun _ => NH)).
   Qed.
 
-  (* before the index repair (C03-F1) the code agreed with the repaired code exactly for foldings that map
+  (* behaviour before fix commit de8c862 (C03-F1): the code agreed with the repaired code exactly for foldings that map
      every code point to ONE code point; all theorems above then transfer *)
   Theorem C03_before_index_fix_same_on_simple_foldings :
     (forall c, length (foldc c) = 1) ->
@@ -211,6 +228,7 @@ Print Assumptions C03_long_short_inverse.
 Print Assumptions C03_short_form_wellformed.
 Print Assumptions C03_long_form_wellformed.
 Print Assumptions C03_print_short_long_reparse.
+Print Assumptions C03_merge_incremental.
 Print Assumptions C03_schema_history.
 Print Assumptions C03_lookup_after_history.
 Print Assumptions C03_namespace_transparent.
@@ -219,7 +237,8 @@ Print Assumptions C03_mutated_tag_reparses.
 Print Assumptions C03_long_short_inverse_before_hash_fix.
 Print Assumptions C03_before_index_fix_same_on_simple_foldings.
 
-(* REPAIRED DEFECT C03-F2: without the '#' repair the unrestricted round trip was FALSE
+(* REPAIRED DEFECT C03-F2 (behaviour before fix commit 03a83bd; not true of /repo any more): without the '#'
+   repair the unrestricted round trip was FALSE
    (schema A, A/# and t = "A/#/#/x": short t = "A/#/x" but short(short t) = "A/x"). *)
 Theorem C03_long_short_inverse_refuted_before_hash_fix :
   exists (S : list str) (sns t : str),
@@ -234,7 +253,8 @@ Theorem C03_long_short_inverse_refuted_before_hash_fix :
 Proof. exact long_short_unrestricted_refuted_before_fix. Qed.
 Print Assumptions C03_long_short_inverse_refuted_before_hash_fix.
 
-(* REPAIRED DEFECT C03-F1: without the index repair a folding that changes the length of the text broke
+(* REPAIRED DEFECT C03-F1 (behaviour before fix commit de8c862; not true of /repo any more): without the index
+   repair a folding that changes the length of the text broke
    "carried over verbatim" (schema Press, U+00DF -> "ss", t = "Preß/abc": short form "Pressabc";
    with the repair "Press/abc"). *)
 Theorem C03_remainder_verbatim_refuted_before_index_fix :
@@ -308,6 +328,16 @@ Example C03_clean_testlib_2_1_0 : names_clean (map td_long Schema_testlib_2_1_0.
 Proof. exact SchemaWF_testlib_2_1_0.clean. Qed.
 Example C03_clean_testlib_3_0_0 : names_clean (map td_long Schema_testlib_3_0_0.tags) = true.
 Proof. exact SchemaWF_testlib_3_0_0.clean. Qed.
+
+(* the side conditions of C03_remainder_verbatim are met on the bundled vocabulary 8.3.0 (kernel evaluation):
+   node .../Red (no '#' child), spelling "rED-color/RED", r = "Qzx9/my ext": no_longer_form and ext_terms_free
+   hold and the code keeps "/Qzx9/my ext" on Red; node .../Duration (has a '#' child), spelling
+   "temporal-VALUE/duration", r = "3 ms": no_longer_form holds, takes_value_child is the '#' child and the
+   value is kept on it; and a r that DOES continue to a deeper form ("Red-color/Red" after "CSS-color") makes
+   no_longer_form false.  For generated schemas WFschema is evaluated by the extracted model in the harness
+   (a well-formed generated vocabulary on which it is false is reported), not in the kernel. *)
+Example C03_remainder_verbatim_premises_met : ex_premises = true.
+Proof. exact ex_premises_ok. Qed.
 
 (* non-vacuity: "ts:temporal-VALUE/duration/3 ms" against 8.3.0 loaded under namespace "ts:" is identified
    with .../Duration/#, short "ts:Duration/3 ms", long "ts:Property/.../Duration/3 ms", extension "3 ms";
